@@ -38,12 +38,13 @@ fn panic_site(msg: &str) -> String {
     format!("{file}:{words}")
 }
 
-pub fn scenarios(srcs: &SrcCache) -> Vec<Scenario> {
+pub fn scenarios(srcs: &SrcCache, all_standard: bool) -> Vec<Scenario> {
     let std = common::standard_scenarios(srcs);
     let mut v: Vec<Scenario> = std
         .into_iter()
         .filter(|s| {
-            s.name.starts_with("S1")
+            all_standard
+                || s.name.starts_with("S1")
                 || s.name.starts_with("S2")
                 || s.name.starts_with("S4")
                 || s.name.starts_with("S5")
@@ -246,7 +247,7 @@ pub fn case_json(scn: &Scenario, plan: &Plan) -> Value {
 
 pub fn run(report: &Report, budget: &Budget) {
     let srcs = SrcCache::new();
-    let scenarios = scenarios(&srcs);
+    let scenarios = scenarios(&srcs, report.thorough());
     let main_scratch = Scratch::new("c04");
     let thorough = report.thorough();
     // Level-1 work list
@@ -277,6 +278,7 @@ pub fn run(report: &Report, budget: &Budget) {
     let states = Mutex::new(BTreeSet::new());
     let evals = AtomicUsize::new(0);
     let level2 = AtomicUsize::new(0);
+    let level3 = AtomicUsize::new(0);
     let scratches: Vec<Scratch> = (0..crate::util::n_workers()).map(|_| Scratch::new("c04w")).collect();
     let judge = |w: usize, scn: &Scenario, si: usize, reference: &[OpRec], plan: &Plan| -> Option<Vec<OpRec>> {
         let r = run_fault_case(scn, reference, plan, &srcs, &scratches[w]);
@@ -331,8 +333,22 @@ pub fn run(report: &Report, budget: &Budget) {
                         ..Default::default()
                     };
                     // The reference for the divergence check is the level-1 trace.
-                    judge(w, scn, *si, &log, &p2);
+                    let log2 = judge(w, scn, *si, &log, &p2);
                     level2.fetch_add(1, Ordering::SeqCst);
+                    // Deviation bound 3 (thorough): a third fault at every later operation.
+                    if let (true, Some(log2)) = (thorough, log2) {
+                        for r3 in log2.iter().filter(|x| x.idx > r.idx) {
+                            if budget.exceeded() {
+                                return;
+                            }
+                            let p3 = Plan {
+                                fail: vec![(k, kind1), (r.idx, *kind2), (r3.idx, ErrorKind::Other)],
+                                ..Default::default()
+                            };
+                            judge(w, scn, *si, &log2, &p3);
+                            level3.fetch_add(1, Ordering::SeqCst);
+                        }
+                    }
                 }
             }
         }
@@ -341,8 +357,9 @@ pub fn run(report: &Report, budget: &Budget) {
     report.set("single_fault_and_outage_plans", json!(cases.len()));
     report.set("single_fault_plans_completed", json!(done));
     report.set("fault_pairs_executed", json!(level2.load(Ordering::SeqCst)));
+    report.set("fault_triples_executed", json!(level3.load(Ordering::SeqCst)));
     report.set("distinct_nontrivial", json!(states.lock().unwrap().len()));
-    report.set("deviation_bound_completed", json!(if done == cases.len() && !budget.was_hit() { 2 } else if done == cases.len() { 1 } else { 0 }));
+    report.set("deviation_bound_completed", json!(if done == cases.len() && !budget.was_hit() { if thorough { 3 } else { 2 } } else if done == cases.len() { 1 } else { 0 }));
     report.set("exhaustive", json!(done == cases.len() && !budget.was_hit()));
     report.set("rule", json!(format!("bound 0: fault-free run; bound 1: every operation k of every scenario's storage trace (reads included) failing with each of {:?}, plus a storage outage from every k on; bound 2: for every bound-1 run{} a second fault at every later operation of the diverged trace{}. distinct_nontrivial = distinct canonical end states differing from the fault-free end state", FAULT_KINDS.map(kind_name), if thorough { "" } else { " with kind Other" }, if thorough { " with each kind" } else { " with kind Other" })));
     report.assume("faults are injected at the transport seam (the operation does not touch storage and returns the error kind)");
@@ -357,15 +374,14 @@ pub fn replay(case: &Value) -> Vec<Violation> {
     // For replays the reference is the run itself up to the first fault: use the fault-free trace
     // for single faults, and accept level-2 plans by re-deriving the level-1 trace.
     let (trace, _) = reference_trace(&scn, &srcs, &scratch);
-    let reference = if plan.fail.len() >= 2 {
-        let p1 = Plan {
-            fail: vec![plan.fail[0]],
+    let mut reference = trace;
+    for n in 1..plan.fail.len() {
+        let p = Plan {
+            fail: plan.fail[..n].to_vec(),
             ..Default::default()
         };
-        run_fault_case(&scn, &trace, &p1, &srcs, &scratch).log
-    } else {
-        trace
-    };
+        reference = run_fault_case(&scn, &reference, &p, &srcs, &scratch).log;
+    }
     let r = run_fault_case(&scn, &reference, &plan, &srcs, &scratch);
     if let Some(m) = r.machinery {
         eprintln!("machinery: {m}");
